@@ -13,6 +13,7 @@
 # limitations under the License.
 
 from .composed import ComposedNode
+from .node import ConfigNode
 from ..namespace import namespace, staticproperty
 from .. import utils
 from ..errors import MergeError
@@ -159,12 +160,18 @@ class ConfigList(ComposedNode, list):
 
         if isinstance(other, dict) and not replaced_by(other): # the keys of a dict which replaces the list do not address its elements
             _missing_keys = []
+            from .function import FunctionNode
+            goes_on = len(self) if isinstance(other, FunctionNode) else None # (the positional arguments of a function node, which takes the list over, may go on where the list ends)
             for key in other.ayns.children_names():
                 first_missing = None
                 try:
                     self._validate_index(key, strict=True)
                 except IndexError:
-                    _missing_keys.append(key.ayns.native_value)
+                    plain_key = key.ayns.native_value if isinstance(key, ConfigNode) else key
+                    if goes_on is not None and plain_key == goes_on:
+                        goes_on += 1
+                        continue
+                    _missing_keys.append(plain_key)
                     if first_missing is None:
                         first_missing = key
             if _missing_keys:
